@@ -19,7 +19,9 @@ LEVEL = "translation_validation"
 def gen_tasks(tier, seed):
     rng = random.Random(seed + 15)
     tasks = []
-    curated = [([2, 5], 10, 1), ([5], 10, 1), ([3, 6, 4], 12, 1), ([1, 2, 4], 7, 1), ([1, 2], 10, 1), ([3], 3, 1), ([2, 4, 6], 6, 2), ([1, 6, 4, 2], 3, 6), ([5, 3, 8], 8, 1), ([2, 2, 3], 7, 1), ([4], 2, 2), ([1, 3], 4, 3)]
+    curated = [([2, 5], 10, 1), ([5], 10, 1), ([3, 6, 4], 12, 1), ([1, 2, 4], 7, 1), ([1, 2], 10, 1), ([3], 3, 1), ([2, 4, 6], 6, 2), ([1, 6, 4, 2], 3, 6), ([5, 3, 8], 8, 1), ([2, 2, 3], 7, 1), ([4], 2, 2), ([1, 3], 4, 3),
+               # numbers above the total (reachable only with multiplicities) that no single value generates
+               ([5], 3, 2), ([3], 2, 3), ([7], 4, 2), ([5, 3], 4, 2), ([7, 2], 3, 3)]
     for nums, tot, mult in curated:
         for wt in ("int", "float"):
             tasks.append({"kind": "genset", "numbers": nums, "total": tot, "mult": mult, "wt": wt, "partition": None})
